@@ -123,7 +123,7 @@ func c13(e *Env) {
 	// ---- random
 	rng := gen.NewRng(e.Seed, "C13", "random")
 	g := &gen.Gen{S: e.S, C: e.C, R: rng, O: &gen.Opts{}}
-	nr := e.N(100000, 3000000)
+	nr := e.N(100000, 15000000)
 	for i := 0; i < nr; i++ {
 		n := rng.Intn(301)
 		switch rng.Intn(200) {
@@ -176,7 +176,7 @@ func c13(e *Env) {
 		}
 	}
 	// ---- default wrappers and list variants
-	nw := e.N(10000, 200000)
+	nw := e.N(10000, 1500000)
 	var wrappers int64
 	for i := 0; i < nw; i++ {
 		n := rng.Intn(40)
@@ -297,7 +297,7 @@ func walkFix(e *Env, t *schema.Type, a, b reflect.Value, path string, f func(fd 
 func c13Messages(e *Env) {
 	r := e.R
 	types := e.Types()
-	n := e.N(200, 5000)
+	n := e.N(200, 25000)
 	acc := newFeatAcc()
 	e.Par(len(types), func(i int) {
 		t := types[i]
